@@ -195,6 +195,8 @@ pub struct World {
     pub multi_filter: bool,
     /// every fourth publish carries a payload of 70 000 bytes or more
     pub huge_pubs: bool,
+    /// payload size of the plain publish that will be operation number `idx` (set by a scenario before it starts the operation)
+    pub payload_sizes: std::collections::HashMap<usize, usize>,
 }
 
 #[derive(Default, Clone, Debug)]
@@ -333,6 +335,7 @@ impl World {
             rich_pubs: false,
             multi_filter: false,
             huge_pubs: false,
+            payload_sizes: std::collections::HashMap::new(),
             confirmed_inbound: 0,
         };
         if w.connack_sum.is_none() {
@@ -378,6 +381,7 @@ impl World {
                     let (ct, up) = Self::rich_options(idx);
                     sp.content_type = Some(ct);
                     sp.user_props = up;
+                    sp.retain = Some(true);
                 }
                 OpSpec::Publish(sp)
             }
@@ -401,6 +405,13 @@ impl World {
     /// payload of the `idx`-th operation if it is a plain publish: "p<idx>", or - with `huge_pubs` - for every fourth one
     /// 70 000 / 140 000 / 270 000 bytes (beyond 64 KiB, the 3-byte remaining length, and 256 KiB)
     pub fn plain_payload(&self, idx: usize) -> Vec<u8> {
+        if let Some(&n) = self.payload_sizes.get(&idx) {
+            let mut v = vec![b's'; n];
+            for (j, b) in v.iter_mut().enumerate().step_by(1009) {
+                *b = (j as u8) ^ (idx as u8) ^ 0x5a;
+            }
+            return v;
+        }
         if self.huge_pubs && idx % 4 == 1 {
             let n = [70_000usize, 140_000, 270_000][(idx / 4) % 3];
             let mut v = vec![b'h'; n];
@@ -411,6 +422,11 @@ impl World {
         } else {
             format!("p{idx}").into_bytes()
         }
+    }
+
+    /// RETAIN flag the PUBLISH of op `i` must carry (set together with the rarely used options)
+    pub fn want_pub_retain(&self, i: usize) -> bool {
+        self.rich_pubs && i % 3 == 2 && matches!(self.m[i].kind, Kind::Pub0 | Kind::Pub1 | Kind::Pub2)
     }
 
     /// properties the PUBLISH of op `i` must carry (content type first, then user properties)
@@ -841,6 +857,15 @@ impl World {
         self.sim.set_read_err();
     }
 
+    /// A read fails once with a transient error kind while a PINGRESP (nobody is waiting for) is readable behind it.
+    /// Any read error ends the connection: run() returns SocketClosed.
+    pub fn read_err_transient(&mut self, kind: std::io::ErrorKind) {
+        if self.term.is_none() {
+            self.term = Some(Term::ReadErr);
+        }
+        self.sim.set_transient_read_err(kind, &[0xd0, 0x00]);
+    }
+
     pub fn garbage(&mut self, bytes: &[u8]) {
         if self.term.is_none() {
             self.term = Some(Term::Garbage);
@@ -1099,7 +1124,7 @@ impl World {
                             }
                             let mut got_props = p.props.clone();
                             got_props.sort_by_key(|x| (x.id != 3, format!("{:?}", x)));
-                            if p.id != self.m[i].pkt_id || p.qos != want_q || p.payload != self.plain_payload(i) || p.retain || got_props != self.want_pub_props(i) {
+                            if p.id != self.m[i].pkt_id || p.qos != want_q || p.payload != self.plain_payload(i) || p.retain != self.want_pub_retain(i) || got_props != self.want_pub_props(i) {
                                 self.viol(&["C17"], "C17/resent-publish-differs".into(), format!("op{i}: re-sent {} differs from the original (id {:?}, qos {want_q})", CPacket::Publish(p.clone()).brief(), self.m[i].pkt_id));
                             }
                             self.m[i].req_wire = Some(widx);
@@ -1235,7 +1260,7 @@ impl World {
                     let want_props = self.want_pub_props(i);
                     let mut got_props = p.props.clone();
                     got_props.sort_by_key(|x| (x.id != 3, format!("{:?}", x)));
-                    if p.qos != want_q || p.retain || p.payload != want_payload || got_props != want_props {
+                    if p.qos != want_q || p.retain != self.want_pub_retain(i) || p.payload != want_payload || got_props != want_props {
                         self.viol(
                             P_C06_01,
                             format!("C06/publish-fields-differ/qos={want_q}"),
@@ -1792,7 +1817,7 @@ impl World {
             let need = if self.ctx_dropped { self.m[i].min_items_after_drop.unwrap_or(exp.len()) } else { exp.len() };
             if !held && self.sim.auto_streams && (serving || self.ctx_dropped) && items.len() < need {
                 let x = &exp[items.len()];
-                let props: &'static [&'static str] = if self.ctx_dropped { &["C14", "C07"] } else { P_C07 };
+                let props: &'static [&'static str] = if self.ctx_dropped { &["C14", "C07"] } else if x.qos == 2 { P_C07_09 } else { P_C07 };
                 self.viol(
                     props,
                     format!("stream/missing-item/qos={}", x.qos),
